@@ -39,6 +39,39 @@ func vfDistValues(w *probdist.WeightedDist) []int {
 	return out
 }
 
+// vfDistFull renders the complete state of a distribution (values, weights and
+// sampling tables) by reflection.
+func vfDistFull(w *probdist.WeightedDist) string {
+	e := reflect.ValueOf(w).Elem()
+	var b strings.Builder
+	for _, f := range []string{"minValue", "maxValue", "values", "weights", "alias", "prob"} {
+		v := e.FieldByName(f)
+		if !v.IsValid() {
+			continue
+		}
+		switch v.Kind() {
+		case reflect.Slice:
+			for i := 0; i < v.Len(); i++ {
+				x := v.Index(i)
+				if x.Kind() == reflect.Float64 {
+					fmt.Fprintf(&b, "%v,", x.Float())
+				} else {
+					fmt.Fprintf(&b, "%d,", x.Int())
+				}
+			}
+		default:
+			fmt.Fprintf(&b, "%d", v.Int())
+		}
+		b.WriteString(";")
+	}
+	return b.String()
+}
+
+func vfSeedDistFull(seed []byte, biased bool) string {
+	s, _ := drbg.SeedFromBytes(seed)
+	return vfDistFull(probdist.New(s, 0, framing.MaximumSegmentLength, biased))
+}
+
 func vfSeedTable(seed []byte, biased bool) []int {
 	s, _ := drbg.SeedFromBytes(seed)
 	return vfDistValues(probdist.New(s, 0, framing.MaximumSegmentLength, biased))
